@@ -233,6 +233,9 @@ NoArgs == [kind |-> "none", S |-> {}, ps |-> "", ord |-> ""]
 Idle   == [op |-> "idle", j1 |-> "", j2 |-> "", a |-> NoArgs, res |-> "ok", dev |-> {}]
 Pow2(n) == IF n = 0 THEN 1 ELSE IF n = 1 THEN 2 ELSE IF n = 2 THEN 4 ELSE IF n = 3 THEN 8 ELSE IF n = 4 THEN 16 ELSE IF n = 5 THEN 32 ELSE 1000000
 Subsets(w) == IF Pow2(Cardinality(w)) <= MaxSubsets THEN SUBSET w ELSE RandomSubset(MaxSubsets - 1, SUBSET w) \cup {{}}
+\* job_ids is an ITERABLE of ids: a = [kind |-> "ids", S, ord] stands for every Python spelling of the same ids in the same order
+\* (list, tuple, set, generator expression, iterator, map object, dict keys view, ids drawn lazily from a cursor); the harness
+\* rotates the spellings over the edges, the expected outcome below does not depend on it
 ViewArgs(w) == {[kind |-> "all", S |-> {}, ps |-> p, ord |-> o] : p \in PathSpecs, o \in Orders}
                \cup {[kind |-> "ids", S |-> S, ps |-> p, ord |-> o] : S \in Subsets(w), p \in PathSpecs, o \in Orders}
 
